@@ -60,8 +60,8 @@ def usable(req, transport):
     if any("\ud800" <= c <= "\udfff" for k, v in form.items() for c in k + v):
         return False
     names = query_names(req.uri)
-    if len(set(names)) != len(names) or set(names) & set(form):
-        return False
+    if transport == "flask" and (len(set(names)) != len(names) or set(names) & set(form)):
+        return False       # (Django, like the framework-free request, reads the last value and the form before the query)
     hdrs = req.headers or {}
     if not isinstance(hdrs, dict) or not all(isinstance(k, str) and isinstance(v, str) and re.match(r"^[A-Za-z-]+$", k)
                                             and _PLAIN_H.match(v) and v == v.strip() for k, v in hdrs.items()):
@@ -121,3 +121,37 @@ def call(server, transport, req, f):
         return out
     finally:
         server._transport = "neutral"
+
+
+def pick(*parts):
+    """A transport chosen by the content of the case (stable across runs and seeds, recorded in the case)."""
+    import zlib
+    return TRANSPORTS[zlib.crc32(json.dumps(parts, sort_keys=True, default=str).encode()) % len(TRANSPORTS)]
+
+
+def wrap(transport, req):
+    """The library's request object for `req`, made by the integration's wrapper around a real framework request
+    (for callers that hand a request object to a component directly: ClientAuthentication, a resource protector)."""
+    u = urlsplit(req.uri)
+    hdrs = dict(req.headers or {})
+    if req.body is not None:
+        data = req.body if isinstance(req.body, bytes) else req.body.encode("utf-8")
+        ctype = hdrs.pop("Content-Type", "application/json")
+    else:
+        data = urlencode(req.form or {}).encode("ascii")
+        ctype = hdrs.pop("Content-Type", "application/x-www-form-urlencoded")
+    if transport == "flask":
+        import flask
+        from werkzeug.test import EnvironBuilder
+        from authlib.integrations.flask_oauth2.requests import FlaskOAuth2Request
+        env = EnvironBuilder(path=u.path or "/", base_url="%s://%s" % (u.scheme, u.netloc), query_string=u.query, method=req.method,
+                             data=data, content_type=ctype, headers=hdrs).get_environ()
+        return FlaskOAuth2Request(flask.Request(env))
+    _django_ready()
+    from django.test import RequestFactory
+    from authlib.integrations.django_oauth2.requests import DjangoOAuth2Request
+    extra = {"HTTP_" + k.upper().replace("-", "_"): v for k, v in hdrs.items()}
+    extra["HTTP_HOST"] = u.netloc
+    extra["QUERY_STRING"] = u.query
+    return DjangoOAuth2Request(RequestFactory().generic(req.method, u.path or "/", data=data, content_type=ctype,
+                                                        secure=(u.scheme == "https"), **extra))
